@@ -30,7 +30,7 @@ use nextest_metadata::{
 };
 use owo_colors::OwoColorize;
 use std::{
-    collections::{BTreeMap, BTreeSet},
+    collections::{BTreeMap, BTreeSet, HashSet},
     ffi::{OsStr, OsString},
     fmt, io,
     path::PathBuf,
@@ -589,8 +589,18 @@ impl<'g> TestList<'g> {
 
         // Treat ignored and non-ignored as separate sets of single filters, so that partitioning
         // based on one doesn't affect the other.
+        //
+        // libtest prints ignored tests in both listings (see the note below). Skip them in the
+        // non-ignored pass so that they don't take part in count-based partitioning of non-ignored
+        // tests; they're handled in the ignored pass.
+        let ignored_names = Self::parse(&test_binary.binary_id, ignored.as_ref())?;
+        let ignored_name_set: HashSet<&str> = ignored_names.iter().copied().collect();
+
         let mut non_ignored_filter = filter.build();
         for test_name in Self::parse(&test_binary.binary_id, non_ignored.as_ref())? {
+            if ignored_name_set.contains(test_name) {
+                continue;
+            }
             test_cases.insert(
                 test_name.into(),
                 RustTestCaseSummary {
@@ -607,7 +617,7 @@ impl<'g> TestList<'g> {
         }
 
         let mut ignored_filter = filter.build();
-        for test_name in Self::parse(&test_binary.binary_id, ignored.as_ref())? {
+        for test_name in ignored_names {
             // Note that libtest prints out:
             // * just ignored tests if --ignored is passed in
             // * all tests, both ignored and non-ignored, if --ignored is not passed in
